@@ -101,7 +101,7 @@ def parseInt64Lossy (s : String) : Int :=
 
 
 /-- `strings.Split(s, "/")` -/
-def splitSlash (s : String) : List String := s.splitOn "/"
+def splitSlash (s : String) : List String := (s.split ('/' : Char)).toList.map (·.copy)
 
 /-- `strconv.FormatInt(i, 10)` -/
 def fmtInt (i : Int) : String := toString i
